@@ -393,19 +393,16 @@ core.quiet_stderr()
 from vlib import dslgen
 job = json.load(open(sys.argv[1]))
 out = []
+producers = {}
 for step in job['steps']:
     try:
-        if step['feed'] == 'alchemy':
+        if step['db'] not in producers:  # one feed / reader per storage and process, like a runner keeps it
             from forml.provider.feed import alchemy
             tables = dslgen.catalog()
             feed = alchemy.Feed({tables[n]: n.lower() for n in dslgen.SCHEMA}, connection=f"sqlite:///{step['db']}")
-        else:
-            from forml.provider.feed import monolite
-            tables = dslgen.catalog()
-            feed = monolite.Feed(inline={tables[n]: step['inline'][n] for n in step['inline']})
+            producers[step['db']] = feed.producer(feed.sources, feed.features, **feed._readerkw)
         statement = dslgen.build(dslgen.norm(step['ast']))
-        producer = feed.producer(feed.sources, feed.features, **feed._readerkw)
-        table = producer(statement, None)
+        table = producers[step['db']](statement, None)
         rows = [[None if (isinstance(v, float) and v != v) else (v.item() if hasattr(v, 'item') else v) for v in row] for row in table.to_rows()]
         out.append({'rows': json.loads(json.dumps(rows, default=str))})
     except Exception as err:
@@ -444,10 +441,14 @@ def run_reader_history(ctx, index):
         for key, path in stores.items():
             contents[key] = dsleval.random_data(rng, dslgen.SCHEMA)
             sqlite_write(path, contents[key])
-        ast = dslgen.query(dslgen.table('A'), select=(dslgen.column('A', 'x'), dslgen.column('A', 's')))
-        if rng.random() < 0.5:
-            ast = dslgen.query(dslgen.table('B'), select=(dslgen.column('B', 'x'), dslgen.column('B', 'w')),
-                               where=dslgen.cmp('>', dslgen.column('B', 'w'), dslgen.lit(0)))
+        statements = [
+            dslgen.query(dslgen.table('A'), select=(dslgen.column('A', 'x'), dslgen.column('A', 's'))),
+            dslgen.query(dslgen.table('B'), select=(dslgen.column('B', 'x'), dslgen.column('B', 'w')),
+                         where=dslgen.cmp('>', dslgen.column('B', 'w'), dslgen.lit(0))),
+            dslgen.query(dslgen.table('A'), select=(dslgen.column('A', 'y'), dslgen.column('A', 's')),
+                         where=dslgen.cmp('>', dslgen.column('A', 'x'), dslgen.lit(-1))),
+        ]
+        rng.shuffle(statements)
         plan = []  # list of processes, each a list of steps
         current = []
         actions = [rng.choice(['read-f', 'read-f', 'read-g', 'mutate-f', 'restart']) for _ in range(rng.randint(3, 6))]
@@ -468,13 +469,15 @@ def run_reader_history(ctx, index):
         if current:
             plan.append(current)
         history = []
+        reads = []
         for item in plan:
             if item == 'mutate-f':
                 contents['f'] = dsleval.random_data(rng, dslgen.SCHEMA)
                 sqlite_write(stores['f'], contents['f'])
                 history.append('mutate-f')
                 continue
-            steps = [{'feed': 'alchemy', 'db': stores[k], 'ast': ast, 'key': k} for k in item]
+            steps = [{'feed': 'alchemy', 'db': stores[k], 'ast': statements[(len(history) + n) % len(statements)], 'key': k}
+                     for n, k in enumerate(item)]
             job = {'steps': steps, 'out': os.path.join(workdir, 'out.json')}
             with open(os.path.join(workdir, 'job.json'), 'w', encoding='utf-8') as fd:
                 json.dump(job, fd)
@@ -487,18 +490,23 @@ def run_reader_history(ctx, index):
             with open(job['out'], encoding='utf-8') as fd:
                 results = json.load(fd)
             os.unlink(job['out'])
-            for key, result in zip(item, results):
+            for step, key, result in zip(steps, item, results):
+                ast = step['ast']
                 ctx.count('evaluations')
                 ctx.count('reader_reads_checked')
                 history.append(f'read-{key}')
+                reads.append((key, dslgen.signature(ast)))
                 witness = {'history': list(history), 'ast': ast}
                 if 'error' in result:
                     ctx.violation('reader-read-raises', f'read through feed {key} failed: {result["error"]}', witness)
                     continue
                 expected = dsleval.evaluate(ast, contents[key])
                 if dsleval.bag(expected) != dsleval.bag([tuple(r) for r in result['rows']]):
-                    earlier = 'mutate-f' in history[:-1] or any(h.startswith('read-') and h != f'read-{key}' for h in history[:-1])
-                    key_name = 'alchemy-result-cache-keyed-by-sql-text' if earlier else 'reader-result-differs'
+                    # known mechanism: the same statement was read before, through any feed, and the storage behind this
+                    # read differs from that earlier read's (mutated since, or another database)
+                    same_before = [k for k, sig in reads[:-1] if sig == dslgen.signature(ast)]
+                    stale = bool(same_before) and ('mutate-f' in history[:-1] or any(k != key for k in same_before))
+                    key_name = 'alchemy-result-cache-keyed-by-sql-text' if stale else 'reader-result-differs'
                     ctx.violation(key_name, f'history {history}: read through {key} returned {result["rows"][:4]} but its storage '
                                   f'holds {expected[:4]}', witness)
         ctx.shape(('history', tuple(history)))
